@@ -16,11 +16,15 @@ pub struct BuildOpts {
     /// configured temp dir: None = default; Some(path)
     #[serde(default)]
     pub tmpdir: Option<String>,
+    /// C10 "retrying without the fault succeeds", literally: the faulty attempt runs in a nested transaction that is
+    /// rolled back, the fault is withdrawn and THE SAME builder value builds again in the caller's transaction
+    #[serde(default)]
+    pub retry_same_builder: bool,
 }
 
 impl Default for BuildOpts {
     fn default() -> Self {
-        BuildOpts { n_trees: None, split_after: None, mem: None, threads: 1, seed: 42, cancel_at: None, tmpdir: None }
+        BuildOpts { n_trees: None, split_after: None, mem: None, threads: 1, seed: 42, cancel_at: None, tmpdir: None, retry_same_builder: false }
     }
 }
 
